@@ -699,9 +699,98 @@ theorem commit2_inv {w : WState} {qi ei abi lbi : Nat} {lq le : AcctV} {ab lb : 
         dsimp only
         omega
 
+/-- an instruction on a bank alone that leaves its share totals as they were keeps the ledger -/
+theorem commitB_inv {w : WState} {bi : Nat} {b : WBank} {books : Bank} (hi : WInv w) (hb : w.banks[bi]? = some b)
+    (hsa : books.sa = b.v.books.sa) (hsl : books.sl = b.v.books.sl) : WInv (w.commitB bi b books) := by
+  obtain ⟨hk, hA, hL⟩ := hi
+  have hlen : bi < w.banks.length := by
+    rcases Nat.lt_or_ge bi w.banks.length with h | h
+    · exact h
+    · rw [List.getElem?_eq_none h] at hb; cases hb
+  have getb : ∀ j, (w.banks.set bi { b with v := { b.v with books := books } })[j]? =
+      if bi = j then some { b with v := { b.v with books := books } } else w.banks[j]? := by
+    intro j
+    rw [List.getElem?_set]
+    by_cases hj : bi = j
+    · subst hj; simp [hlen]
+    · simp [hj]
+  refine ⟨?_, ?_, ?_⟩
+  · intro i j x y hx hy hij
+    simp only [WState.commitB] at hx hy
+    rw [getb] at hx hy
+    by_cases h1 : bi = i <;> by_cases h2 : bi = j
+    · omega
+    · simp only [h1, if_true] at hx; simp only [h2, if_false] at hy
+      injection hx with hx; subst hx
+      exact hk i j b y (by rw [← h1]; exact hb) hy hij
+    · simp only [h1, if_false] at hx; simp only [h2, if_true] at hy
+      injection hy with hy; subst hy
+      exact hk i j x b hx (by rw [← h2]; exact hb) hij
+    · simp only [h1, if_false] at hx; simp only [h2, if_false] at hy
+      exact hk i j x y hx hy hij
+  · intro j x hx
+    simp only [WState.commitB] at hx ⊢
+    rw [getb] at hx
+    by_cases h1 : bi = j
+    · simp only [h1, if_true] at hx
+      injection hx with hx; subst hx
+      have := hA bi b hb
+      simp only
+      omega
+    · simp only [h1, if_false] at hx
+      exact hA j x hx
+  · intro j x hx
+    simp only [WState.commitB] at hx ⊢
+    rw [getb] at hx
+    by_cases h1 : bi = j
+    · simp only [h1, if_true] at hx
+      injection hx with hx; subst hx
+      have := hL bi b hb
+      simp only
+      omega
+    · simp only [h1, if_false] at hx
+      exact hL j x hx
+
+theorem accrueIx_ok {c : Ctx} {books : Bank} (h : accrueIx c = .ok books) : accrueInterest c.b.books c.b.ir c.now = .ok books := by
+  unfold accrueIx at h
+  obtain ⟨_, _, h⟩ := Res.bind_ok h
+  exact h
+
+theorem collectFeesIx_ok {c : Ctx} {ok : Bool} {o : CollectOut} (h : collectFeesIx c ok = .ok o) :
+    ok = true ∧ ∃ r, collectFees c.b.books.feeI c.b.books.feeG c.b.books.feeP c.vaultAmount = .ok r ∧
+      o.books = { c.b.books with feeI := r.feeI, feeG := r.feeG, feeP := r.feeP } ∧
+      o.toInsurance = r.toInsurance ∧ o.toGroup = r.toGroup ∧ o.toProgram = r.toProgram := by
+  unfold collectFeesIx at h
+  obtain ⟨_, _, h⟩ := Res.bind_ok h
+  obtain ⟨_, hk, h⟩ := Res.bind_ok h
+  obtain ⟨r, hr, h⟩ := Res.bind_ok h
+  injection h with h
+  subst h
+  exact ⟨chk_ok hk, r, hr, rfl, rfl, rfl, rfl⟩
+
 theorem step_inv (w : WState) (op : WOp) (hi : WInv w) : WInv (w.step op) := by
   cases op with
   | tick dt => exact ⟨hi.keys, hi.ledgerA, hi.ledgerL⟩
+  | accrue bi =>
+    simp only [WState.step]
+    split
+    · rename_i b hb
+      split
+      · rename_i books ho
+        obtain ⟨t1, t2⟩ := accrue_totals (accrueIx_ok ho)
+        exact commitB_inv hi hb t1 t2
+      · exact hi
+    · exact hi
+  | collect bi ok vault =>
+    simp only [WState.step]
+    split
+    · rename_i b hb
+      split
+      · rename_i o ho
+        obtain ⟨_, r, _, hbk, _⟩ := collectFeesIx_ok ho
+        exact commitB_inv hi hb (by rw [hbk]; rfl) (by rw [hbk]; rfl)
+      · exact hi
+    · exact hi
   | deposit ai bi signer amount upTo =>
     simp only [WState.step]
     split
